@@ -205,6 +205,7 @@ func runCheck(P *Prog, opt CheckOpts) int {
 	var violations []*Result
 	var knownHits []KnownFinding
 	var unclaimedUndischarged []string
+	var coverUnknown []string
 	var samples []map[string]interface{}
 	var slowest []*Result
 	for _, r := range items {
@@ -214,6 +215,8 @@ func runCheck(P *Prog, opt CheckOpts) int {
 			nCover++
 			if r.Verdict == "cover-ok" {
 				nCoverOK++
+			} else if r.Verdict == "cover-unknown" {
+				coverUnknown = append(coverUnknown, name)
 			} else {
 				// vacuity: a cover that is not satisfiable means the function's obligations are vacuous
 				violations = append(violations, r)
@@ -336,6 +339,7 @@ func runCheck(P *Prog, opt CheckOpts) int {
 			"slowest":                 slow,
 			"covers":                  nCover,
 			"covers_satisfiable":      nCoverOK,
+			"covers_undecided":        coverUnknown,
 			"undischarged":            viol,
 			"known_findings":          kh,
 			"unclaimed_undischarged":  unclaimedUndischarged,
